@@ -36,6 +36,8 @@ def run_plan(prop, plan, fresh=False):
     status = "ok"
     errors = []
     for name, leg in legs.items():
+        if os.environ.get("VERIF_KEEP_EVENTS"):
+            leg = dict(leg, opts=dict(leg.get("opts") or {}, keep_events=True))
         r = runner.run_leg_fresh_interpreter(leg) if (fresh or leg.get("fresh")) else runner.run_leg_forked(leg)
         res[name] = r
         if r.get("status") in ("harness_error", "timeout"):
@@ -56,6 +58,10 @@ def run_plan(prop, plan, fresh=False):
         for k, v in (r.get("residuals") or {}).items():
             if not (v <= residuals.get(k, -1.0)):
                 residuals[k] = v
+    if os.environ.get("VERIF_KEEP_EVENTS"):
+        out["legs_events"] = {name: [res[name].get("events"), res[name].get("stdout_digest"),
+                                     [(o.get("status"), o.get("exc_type"), str(o.get("value"))[:60], o.get("line_events"))
+                                      for o in (res[name].get("outcomes") or [])]] for name in res}
     out.update(digest=h.hexdigest(), faults=dict(faults), reach=dict(reach), notes=dict(notes), residuals=residuals,
                steps=steps)
     if status != "ok":
